@@ -195,6 +195,20 @@ Theorem script_cost_identity : forall (A : Type) (eqv : A -> A -> option bool) r
 Proof. exact script_cost_identity_lemma. Qed.
 Print Assumptions script_cost_identity.
 
+(** COMMON PREFIX.  When the route table is not exhausted, the leading run of elements that the search finds
+    equal (it compares the shorter sequence's elements with the longer one's, hence the orientation of
+    [lcp]) is kept: the script starts with a Common edit holding a prefix of the old sequence that is at
+    least as long.  (No such statement holds for a common suffix: see ex_suffix_not_trailing below, where an
+    equally short script pairs the last kept element differently.) *)
+Theorem common_prefix_kept : forall (A : Type) (eqv : A -> A -> option bool) route_size a b script c,
+  diff_slice A eqv route_size a b = Ok script ->
+  exhausted A eqv route_size a b = Ok false ->
+  lcp A eqv (if zlen A a >=? zlen A b then b else a) (if zlen A a >=? zlen A b then a else b) = Ok c ->
+  0 < c ->
+  exists vs rest, script = mkEdit KCommon vs vs :: rest /\ vs = firstn (length vs) a /\ c <= zlen A vs.
+Proof. exact common_prefix_kept_lemma. Qed.
+Print Assumptions common_prefix_kept.
+
 (** The hypotheses are satisfiable. *)
 Example ex_hypotheses :
   let a := VTuple [VInt 1; VInt 2; VInt 3] in
@@ -217,3 +231,17 @@ Example ex_total :
   exists script, diff_slice Z (fun x y => Some (x =? y)) 3 [1;2;3;4] [2;5;4;7;8] = Ok script /\
                  (script_cost script + 2 * script_kept script = 9)%nat.
 Proof. split; [vm_compute; reflexivity|]. eexists. split; [vm_compute; reflexivity|]. vm_compute. reflexivity. Qed.
+
+Example ex_prefix :
+  lcp Z (fun x y => Some (x =? y)) [1;2;7;4] [1;2;5;4;7;8] = Ok 2 /\
+  exhausted Z (fun x y => Some (x =? y)) 2000000 [1;2;7;4] [1;2;5;4;7;8] = Ok false /\
+  exists rest, diff_slice Z (fun x y => Some (x =? y)) 2000000 [1;2;7;4] [1;2;5;4;7;8] =
+               Ok (mkEdit KCommon [1;2] [1;2] :: rest).
+Proof. split; [vm_compute; reflexivity|]. split; [vm_compute; reflexivity|]. eexists. vm_compute. reflexivity. Qed.
+
+(** a common last element need not end the script as a Common edit: [9;3] -> [3;3] is reported as
+    delete 9, keep 3, add 3 (cost 2, as small as replace 9 by 3, keep 3) *)
+Example ex_suffix_not_trailing :
+  diff_slice Z (fun x y => Some (x =? y)) 2000000 [9;3] [3;3] =
+  Ok [mkEdit KDelete [9] []; mkEdit KCommon [3] [3]; mkEdit KAdd [] [3]].
+Proof. vm_compute. reflexivity. Qed.
